@@ -80,4 +80,129 @@ theorem fold_store_spec (P : BasicP) (data : ByteArray) (mask s : Nat) :
         exact hsp t
 
 end Basic
+
+/-!
+Reference semantics of an `AdvHasher` index: every key owns a ring of `block_size` slots and a
+16-bit counter; the `j`-th position (counting from 0) with a given key that is indexed after the
+counter stood at `c` goes to ring slot `(c + j) mod 2^16 & block_mask` of that key's block, the
+counter ends at `(c + number of positions with that key) mod 2^16`, and a slot keeps the LAST
+position that was sent to it.
+-/
+namespace Adv
+
+/-- key of a position: hash of the bytes at its (masked) offset; `none` if they do not exist -/
+def keyOf (P : AdvP) (data : ByteArray) (mask ix : Nat) : Option Nat :=
+  match win data (ix &&& mask) P.lookahead with
+  | none => none
+  | some w => some ((P.mixWord w >>> P.shift) % U32)
+
+/-- number of positions in `[s, s+n)` with key `key` -/
+def countKey (keyOf : Nat → Option Nat) (s : Nat) : Nat → Nat → Nat
+  | 0, _ => 0
+  | n + 1, key => countKey keyOf s n key + (if keyOf (s + n) = some key then 1 else 0)
+
+/-- slot of position `ix ≥ s` when `[s, …)` is indexed starting from counters `num0` -/
+def slotOf (P : AdvP) (keyOf : Nat → Option Nat) (num0 : Tab) (s ix : Nat) : Option Nat :=
+  match keyOf ix with
+  | none => none
+  | some key =>
+    some ((key <<< P.blockBits) +
+      (((num0.getD key 0 + countKey keyOf s (ix - s) key) % U16) &&& P.blockMask))
+
+theorem store_some {P : AdvP} {data : ByteArray} {mask ix : Nat} {num b : Tab} {st' : AdvSt}
+    (h : store P data mask ix ⟨num, b⟩ = some st') :
+    ∃ key, keyOf P data mask ix = some key ∧ ∃ hk : key < num.size,
+      ∃ hi : (num[key] &&& P.blockMask) + (key <<< P.blockBits) % U32 < b.size,
+        st' = ⟨num.set key ((num[key] + 1) % U16) hk,
+               b.set ((num[key] &&& P.blockMask) + (key <<< P.blockBits) % U32) (ix % U32) hi⟩ := by
+  simp only [store, hashAt] at h
+  unfold keyOf
+  cases hw : win data (ix &&& mask) P.lookahead with
+  | none => simp [hw] at h
+  | some w =>
+    simp only [hw, Option.map_some] at h
+    refine ⟨_, rfl, ?_⟩
+    by_cases hk : (P.mixWord w >>> P.shift) % U32 < num.size
+    · refine ⟨hk, ?_⟩
+      simp only [rd, hk, dite_true] at h
+      unfold wr at h
+      split at h
+      · cases h
+      · rename_i b1 hb
+        split at hb
+        · rename_i hi
+          refine ⟨hi, ?_⟩
+          injection hb with hb
+          subst hb
+          simp only [hk, dite_true] at h
+          injection h with h
+          exact h.symm
+        · cases hb
+    · simp [rd, hk] at h
+
+/-- one-at-a-time indexing realises the reference semantics (counters are `u16`) -/
+theorem fold_store_spec (P : AdvP) (hk : ∀ w, ((P.mixWord w >>> P.shift) % U32) <<< P.blockBits < U32)
+    (data : ByteArray) (mask s : Nat) (num0 b0 : Tab) (hu16 : ∀ key, num0.getD key 0 < U16) :
+    ∀ (n : Nat) (st' : AdvSt), forRange (store P data mask) s n ⟨num0, b0⟩ = some st' →
+      st'.num.size = num0.size ∧ st'.buckets.size = b0.size ∧
+      (∀ key, key < num0.size →
+        st'.num[key]? = some ((num0.getD key 0 + countKey (keyOf P data mask) s n key) % U16)) ∧
+      ∀ t,
+        (∀ ix, Basic.lastWriter (slotOf P (keyOf P data mask) num0 s) s n t = some ix →
+          st'.buckets[t]? = some (ix % U32)) ∧
+        (Basic.lastWriter (slotOf P (keyOf P data mask) num0 s) s n t = none →
+          st'.buckets[t]? = b0[t]?) := by
+  intro n
+  induction n with
+  | zero =>
+    intro st' h
+    simp only [forRange_zero, Option.some.injEq] at h
+    subst h
+    refine ⟨rfl, rfl, fun key hkey => ?_, fun t => ⟨fun ix hix => by simp [Basic.lastWriter] at hix, fun _ => rfl⟩⟩
+    simp only [countKey, Nat.add_zero, Nat.mod_eq_of_lt (hu16 key)]
+    simp [Array.getD, hkey]
+  | succ n ih =>
+    intro st' h
+    rw [Basic.forRange_snoc] at h
+    cases h1 : forRange (store P data mask) s n ⟨num0, b0⟩ with
+    | none => simp [h1] at h
+    | some st1 =>
+      obtain ⟨num1, b1⟩ := st1
+      simp only [h1, Option.bind_some] at h
+      obtain ⟨hsn, hsb, hnum, hbk⟩ := ih ⟨num1, b1⟩ h1
+      simp only at hsn hsb hnum hbk
+      obtain ⟨key, hkey, hklt, hi, rfl⟩ := store_some h
+      have hv : num1[key] = (num0.getD key 0 + countKey (keyOf P data mask) s n key) % U16 := by
+        have := hnum key (hsn ▸ hklt)
+        rw [Array.getElem?_eq_getElem hklt] at this
+        exact Option.some.inj this
+      obtain ⟨w, hw⟩ : ∃ w, key = (P.mixWord w >>> P.shift) % U32 := by
+        unfold keyOf at hkey
+        split at hkey
+        · cases hkey
+        · rename_i w _; exact ⟨w, (Option.some.inj hkey).symm⟩
+      have hkb : (key <<< P.blockBits) % U32 = key <<< P.blockBits := by
+        rw [hw]; exact Nat.mod_eq_of_lt (hk w)
+      refine ⟨by simp [hsn], by simp [hsb], fun key' hkey' => ?_, fun t => ?_⟩
+      · simp only [countKey, hkey, Option.some.injEq]
+        by_cases hkk : key = key'
+        · subst hkk
+          simp only [if_true, Array.getElem?_set_self, hv]
+          rw [Nat.mod_add_mod, Nat.add_assoc]
+        · simp only [hkk, if_false, Nat.add_zero]
+          rw [Array.getElem?_set_ne hklt hkk]
+          exact hnum key' hkey'
+      · have hslot : slotOf P (keyOf P data mask) num0 s (s + n)
+            = some ((num1[key] &&& P.blockMask) + (key <<< P.blockBits) % U32) := by
+          simp only [slotOf, hkey, Nat.add_sub_cancel_left, hkb, hv, Nat.add_comm]
+        simp only [Basic.lastWriter, hslot, Option.some.injEq]
+        by_cases htt : (num1[key] &&& P.blockMask) + (key <<< P.blockBits) % U32 = t
+        · subst htt
+          simp only [if_true, Option.some.injEq]
+          exact ⟨fun ix hix => by subst hix; simp, fun hc => by cases hc⟩
+        · simp only [htt, if_false]
+          rw [Array.getElem?_set_ne hi htt]
+          exact hbk t
+
+end Adv
 end BV.Hasher
